@@ -33,6 +33,7 @@ import (
 
 type runSpec struct {
 	name   string
+	pkg    string // package dir relative to the module (default: the property's)
 	test   string // -test.run regexp
 	race   bool
 	instr  bool // map the race-annotated spinlock.go into the overlay
@@ -50,6 +51,13 @@ type prop struct {
 	runs    []runSpec
 	post    func(ctx *context, ag *aggregate)
 	perCase time.Duration // budget for re-running one crashing case alone
+}
+
+func (rs runSpec) pkgOr(p *prop) string {
+	if rs.pkg != "" {
+		return rs.pkg
+	}
+	return p.pkg
 }
 
 var props = map[string]*prop{}
@@ -138,6 +146,17 @@ func buildOverlay(ctx *context, instr bool) string {
 		replace[filepath.Join(ctx.repo, ctx.p.module, rel)] = path
 		return nil
 	})
+	if ctx.p.module != "kernel" {
+		// the helper package has no module-specific imports: map it into the other module as well
+		vl := filepath.Join(ctx.verif, "harness", "kernel", "zzverif", "vlib")
+		if ents, err := os.ReadDir(vl); err == nil {
+			for _, e := range ents {
+				if strings.HasSuffix(e.Name(), ".go") {
+					replace[filepath.Join(ctx.repo, ctx.p.module, "zzverif", "vlib", e.Name())] = filepath.Join(vl, e.Name())
+				}
+			}
+		}
+	}
 	name := "overlay.json"
 	if instr {
 		name = "overlay-instr.json"
@@ -166,7 +185,7 @@ func buildTest(ctx *context, rs runSpec) (bin string, errOut string) {
 	if rs.race {
 		args = append(args, "-race")
 	}
-	args = append(args, "./"+ctx.p.pkg)
+	args = append(args, "./"+rs.pkgOr(ctx.p))
 	cmd := exec.Command("go", args...)
 	cmd.Dir = filepath.Join(ctx.repo, ctx.p.module)
 	cmd.Env = goEnv()
@@ -200,7 +219,7 @@ func runChild(ctx *context, rs runSpec, bin string, ag *aggregate, from, to, sha
 	// timeout -s QUIT gives a goroutine dump on a hang; output goes to a file
 	cmd := exec.Command("timeout", "-s", "QUIT", "-k", "10", strconv.Itoa(secs),
 		bin, "-test.run", rs.test, "-test.timeout", "0", "-test.v")
-	cmd.Dir = filepath.Join(ctx.repo, ctx.p.module, ctx.p.pkg)
+	cmd.Dir = filepath.Join(ctx.repo, ctx.p.module, rs.pkgOr(ctx.p))
 	cmd.Env = env
 	f, _ := os.Create(stdout)
 	cmd.Stdout = f
